@@ -6,7 +6,7 @@ schedules of the same action(s) (refinement), and must satisfy the property orac
 import re
 from vlib import core
 
-VARIANTS = [("int", "app"), ("ptr", "app"), ("ptr", "cell"), ("struct", "app"), ("struct", "cell"), ("structval", "app"), ("arr", "app"),
+VARIANTS = [("int", "app"), ("ptr", "app"), ("ptr", "cell"), ("struct", "app"), ("struct", "cell"), ("structval", "app"), ("structauto", "app"), ("arr", "app"),
             ("range", "app"), ("range", "cell"), ("stru", "app"), ("stru", "cell"), ("strs", "app"), ("strs", "cell"),
             ("addr", "app"), ("addr", "cell"), ("buf", "app"), ("buf", "cell"), ("copymem", "app")]
 ACTIONS = ["none", "flip", "lengthen", "shorten", "unterminate", "nullcell", "retarget"]
@@ -26,6 +26,10 @@ def split_out(line):
     return m.group(1), core_out, attrs
 
 
+def attrs_full(x):
+    return x
+
+
 def judge(variant, src, core_out, attrs):
     """the property, evaluated directly on what the verifier/application got. None = fine"""
     if attrs.get("where", "app") != "app":
@@ -41,6 +45,12 @@ def judge(variant, src, core_out, attrs):
         return f"the application faulted at {a} (outside the sandbox) during the call"
     if core_out.startswith("killed") or core_out == "empty":
         return "the application died during the call: " + core_out
+    if variant in ("stru", "strs") and core_out.startswith("s=") and "chk=" in attrs_full(core_out):
+        # never longer than the length that was range-checked (the extent rlbox handed to the backend's same-sandbox test)
+        m = re.search(r"size=(\d+)", core_out); c = re.search(r"chk=(\S+)", core_out).group(1)
+        need = int(m.group(1)) + (1 if variant == "strs" else 0)
+        if int(m.group(1)) > 0 and (c == "none" or int(c) < need):
+            return f"string of {need} bytes (with terminator) delivered although only {c} bytes were range-checked"
     if variant == "stru" and core_out.startswith("s="):
         m = re.search(r"size=(\d+) nul=(-?\d+)", core_out)
         if int(m.group(2)) < 0 or int(m.group(2)) >= int(m.group(1)):
@@ -54,6 +64,7 @@ def shape(core_out):
     property fixes; kind, buffer size and addresses are kept"""
     if core_out.startswith("segv"):
         return "segv"
+    core_out = re.sub(r" chk=\S+", "", core_out)
     m = re.match(r"s=[0-9a-f]* size=(\d+)", core_out)
     if m:
         return f"val size={m.group(1)}"
